@@ -71,6 +71,11 @@ class Gen {
       [objs.length ? 1 : 0, () => `(${r.pick(objs).name}.p${r.int(3)} += ${sub()})`],
       [1, () => `(w.o${this.id()}.o2.p${r.int(3)} += ${sub()})`],
       [0.6, () => `(w.fobj${this.id()}()[w.k${this.id()}] += ${sub()})`],
+      // operations inside the target of an assignment / update (object, computed key)
+      // (`??=` / `||=` may yield the existing property, an object: keep that out of value position - see the template coercion-timing allowance)
+      [0.8, () => { const op = r.pick(['+=', '+=', '=', '-=', '??=']); const e = `w.fobj${this.id()}(${sub()})[${sub()}] ${op} ${sub()}`; return op === '??=' ? `(${e}, w.s${this.id()})` : `(${e})` }],
+      [objs.length ? 0.5 : 0, () => { const op = r.pick(['+=', '=', '||=']); const e = `${r.pick(objs).name}[${sub()}] ${op} ${sub()}`; return op === '||=' ? `(${e}, w.s${this.id()})` : `(${e})` }],
+      [0.3, () => `(w.fobj${this.id()}()[${sub()}]++)`],
       [objs.length ? 1 : 0, () => `${r.pick(objs).name}.s${this.id()}`],
       [1, () => `(w.f${this.id()}(), ${sub()})`],
       [1.5, () => `(${sub()}, ${sub()})`], // comma sequences whose earlier expressions are instrumented too
